@@ -21,6 +21,7 @@ PEER_BLOCKING = ("ProxiedStream::create_from_tokio", "AsyncReadExt::read", "Asyn
                  "AsyncReadExt::read_buf", "AsyncReadExt::read_u8", "AsyncReadExt::read_u16", "AsyncBufReadExt::read_line",
                  "AsyncReadPacket::read_packet", "reader::read_varint", "AsyncWriteExt::write_all", "AsyncWriteExt::write",
                  "AsyncWriteExt::flush", "tokio::io::copy", "copy_bidirectional")
+LOOP_ALLOWED = ("TcpListener::accept", "CancellationToken::cancelled", "WaitForCancellationFuture", "tokio::task::yield_now")
 TRIAGED = {"AsyncWriteExt::shutdown": "half-close of a refused connection: TcpStream::poll_shutdown issues shutdown(2) and returns; it does not wait for the peer"}
 BLOCKING_STD = ("std::thread::sleep", "std::net::TcpStream::connect", "std::net::TcpListener::accept", "std::fs::read",
                 "std::fs::File::open", "std::fs::read_to_string", "Runtime::block_on", "Handle::block_on", "futures::executor::block_on",
@@ -94,6 +95,14 @@ def check(ctx):
     body = H.listen
     chains = inline_chains(ctx, body)
     ctx.floor(R, "futures awaited inline by the accept loop (transitively)", len(chains), 4, body.loc)
+    # sites of listen() that lie on the accept cycle (can reach the accept select! again)
+    g0 = ctx.graph(body)
+    sel_bbs = [bb for bb, kind, name, info in awaits(ctx, body) if kind == "select"]
+    loop_sites = set()
+    for bb, kind, name, info in awaits(ctx, body):
+        for sb in sel_bbs:
+            if bb == sb or (g0.path(g0.nodes_of_bb(bb), [sb]) is not None and g0.path(g0.nodes_of_bb(sb), [bb]) is not None):
+                loop_sites.add(site(body, bb))
     n_bad = 0
     for ch in chains:
         leaf = ch[-1][1]
@@ -108,6 +117,15 @@ def check(ctx):
         elif any(short_leaf.endswith(t) for t in TRIAGED):
             ctx.ok(R, "C16/no-peer-await-in-accept-loop/triaged/" + short_leaf.split("::")[-1], ch[-1][0],
                    "inline await %s — triaged: %s" % (short_leaf, [v for k, v in TRIAGED.items() if short_leaf.endswith(k)][0]))
+        elif ch[0][0] in loop_sites and not any(short_leaf.endswith(a) for a in LOOP_ALLOWED):
+            # inside the accept cycle only waiting for the next connection or for the stop request is expected; anything else —
+            # a semaphore permit, a channel, a lock held by connection tasks — completes when OTHER clients let it
+            n_bad += 1
+            key = "C16/no-peer-await-in-accept-loop/unexpected/" + "->".join(x[1].split("::")[-1] for x in ch)
+            ctx.fail(R, key, ch[-1][0],
+                     "the accept loop awaits %s inline: nothing bounds this wait and its completion can depend on other connections (a permit, "
+                     "a lock, a queue drained by connection tasks), so clients that stall can delay accept() for everyone" % " -> ".join("%s@%s" % (x[1], x[0]) for x in ch),
+                     witness=["%s @ %s" % (x[1], x[0]) for x in ch])
         else:
             ctx.ok(R, "C16/no-peer-await-in-accept-loop/ok/" + "->".join(x[1].split("::")[-1] for x in ch), ch[-1][0],
                    "inline await %s does not read from an accepted peer" % short_leaf)
